@@ -8,20 +8,22 @@ Ins(o, q) == q \o <<Op(o)>>
 Nm(s) == Nam(s)
 
 \* form XObjects of the generated documents
-FormDefs == [Fm1 |-> [m |-> <<2, 0, 0, 2, 10, 10>>, own |-> TRUE, xo |-> <<>>,
+FormDefs == [Fm1 |-> [m |-> <<2, 0, 0, 2, 10, 10>>, own |-> TRUE, xo |-> <<>>, fo |-> [F1 |-> "F1"],
                       body |-> <<Op("BT"), Nm("F1"), N(10), Op("Tf"), Str(<<65>>), Op("Tj"), Op("ET"),
                                  N(0), N(0), N(5), N(5), Op("re"), Op("f"), N(3), N(0), N(0), N(3), N(0), N(0), Op("cm")>>],
-             Fm2 |-> [m |-> Ident, own |-> FALSE, xo |-> <<>>,
+             Fm2 |-> [m |-> Ident, own |-> FALSE, xo |-> <<>>, fo |-> <<>>,
                       body |-> <<N(0), N(1), N(0), Op("rg"), N(2), Op("w"), Op("q"), Op("BT"), Nm("F1"), N(20), Op("Tf"), N(2), Op("Tc"),
                                  Str(<<66, 65>>), Op("Tj"), Op("ET"), N(1), N(1), Op("m"), N(4), N(1), Op("l"), Op("S")>>],
+             \* (in Fm3 the NAME F1 means another font, F1b: same /BaseFont, other widths, written as a direct dictionary)
              \* nesting and name scoping: Fm3 has its own resources in which the NAME Fm1 means another form (Fm4), its own
              \* name Fm3 means Fm4 too (not a recursion: names are local to a resource dictionary), and Fm2 is not visible; Fm4 has no resources of its own, so inside it Fm1 still means Fm4's sibling entry
-             Fm3 |-> [m |-> <<1, 0, 0, 1, 5, 0>>, own |-> TRUE, xo |-> [Fm1 |-> "Fm4", Fm3 |-> "Fm4"],
+             Fm3 |-> [m |-> <<1, 0, 0, 1, 5, 0>>, own |-> TRUE, xo |-> [Fm1 |-> "Fm4", Fm3 |-> "Fm4"], fo |-> [F1 |-> "F1b"],
                       body |-> <<Op("BT"), Nm("F1"), N(10), Op("Tf"), Str(<<66>>), Op("Tj"), Op("ET"), Nm("Fm1"), Op("Do"),
                                  Nm("Fm3"), Op("Do"), Nm("Fm2"), Op("Do"), Op("BT"), Nm("F1"), N(10), Op("Tf"), Str(<<65>>), Op("Tj"), Op("ET")>>],
-             Fm4 |-> [m |-> <<1, 0, 0, 1, 0, 7>>, own |-> FALSE, xo |-> <<>>,
+             Fm4 |-> [m |-> <<1, 0, 0, 1, 0, 7>>, own |-> FALSE, xo |-> <<>>, fo |-> <<>>,
                       body |-> <<N(1), N(0), N(0), Op("rg"), Op("BT"), Nm("F1"), N(10), Op("Tf"), Str(<<65, 66>>), Op("Tj"), Op("ET")>>]]
 PageXODef == [Fm1 |-> "Fm1", Fm2 |-> "Fm2", Fm3 |-> "Fm3"]
+PageFontsDef == [F1 |-> "F1", F2 |-> "F2"]
 
 PreText == <<Op("BT"), Nm("F1"), N(10), Op("Tf")>>
 A == <<65>>  AB == <<65, 66>>  ASB == <<65, 32, 66>>
@@ -38,7 +40,7 @@ GState == { <<Op("q")>>, <<Op("Q")>>, Ins("cm", <<N(2), N(0), N(0), N(2), N(1), 
             Ins("Do", <<Nm("Fm1")>>), Ins("Do", <<Nm("Fm2")>>), Ins("Do", <<Nm("Fm3")>>), Ins("Tj", <<Str(A)>>), Ins("rg", <<N(1), N(0), N(0)>>),
             Ins("Tc", <<N(1)>>), Ins("re", <<N(0), N(0), N(2), N(3)>>) \o <<Op("B")>> }
 GPath == { Ins("m", <<N(0), N(0)>>), Ins("l", <<N(5), N(0)>>), Ins("l", <<N(5), N(4)>>), Ins("l", <<N(0), N(4)>>), Ins("l", <<N(0), N(0)>>),
-           <<Op("h")>>, Ins("re", <<N(1), N(1), N(4), N(3)>>), Ins("c", <<N(1), N(2), N(3), N(4), N(5), N(6)>>),
+           <<Op("h")>>, Ins("re", <<N(1), N(1), N(4), N(3)>>), Ins("re", <<N(5), N(5), N(-4), N(3)>>), Ins("re", <<N(5), N(5), N(-4), N(-3)>>), Ins("c", <<N(1), N(2), N(3), N(4), N(5), N(6)>>),
            <<Op("S")>>, <<Op("f*")>>, <<Op("b")>>, <<Op("n")>>, Ins("m", <<N(7), N(7)>>) }
 GPathCtm == { Ins("cm", <<N(0), N(1), N(-1), N(0), N(3), N(0)>>), Ins("cm", <<N(1), N(1), N(0), N(1), N(0), N(0)>>),
               Ins("re", <<N(1), N(1), N(4), N(3)>>), Ins("m", <<N(0), N(0)>>) \o Ins("l", <<N(5), N(0)>>),
